@@ -174,9 +174,6 @@ def print_experiments(block, experiments):
         given a ``name``, each experiment's output is divided into sections
         labeled by that name (one section per diagonal).
     """
-    # Restore continuous factors for printing trials
-    block.restore_continuous()
-
     ls_name = None
     ls_dlen = 0
     for ct in block.orig_constraints:
